@@ -102,7 +102,7 @@ def _cond(r, p):
 
 
 # ---------------------------------------------------------------- sub-checks
-@sub("C12.stable", strategy=yw_case(with_list=True), quick=800, thorough=60000,
+@sub("C12.stable", strategy=yw_case(with_list=True), quick=800, thorough=40000,
      doc="aryule(x,p): all roots of z^p+a1 z^(p-1)+..+ap have |z| < 1, every |k_i| < 1, P > 0 and real, lengths p; "
          "k is the step-down of a")
 def c12_stable(ctx, case):
@@ -132,7 +132,7 @@ def c12_stable(ctx, case):
               rtol=0, atol=1e-11 * kap)
 
 
-@sub("C12.acf", strategy=yw_case(), quick=800, thorough=60000,
+@sub("C12.acf", strategy=yw_case(), quick=800, thorough=40000,
      doc="Toeplitz(r_biased)[1,a] == [P,0..0] with r from the written-out lag sums; lags rebuilt from (a,P) alone "
          "(own step-down + inverse Levinson; package poly2ac when max|k|<0.98) == r_biased[0..p]")
 def c12_acf(ctx, case):
@@ -168,7 +168,7 @@ def c12_acf(ctx, case):
         ctx.close(r2, r, "poly2ac([1,a],P) vs biased sample autocorrelation", rtol=0, atol=1e-11 * kap * r0)
 
 
-@sub("C12.lstsq", strategy=yw_case(), quick=800, thorough=60000,
+@sub("C12.lstsq", strategy=yw_case(), quick=800, thorough=40000,
      doc="aryule coefficients == least-squares solution of corrmtx(x,p,'autocorrelation')[:,1:] a = -[:,0]")
 def c12_lstsq(ctx, case):
     x = _get(ctx, case)
@@ -195,7 +195,7 @@ def c12_lstsq(ctx, case):
               rtol=1e-9, atol=1e-12 * cond)
 
 
-@sub("C12.lpc", strategy=yw_case(dtype="real", with_list=True), quick=800, thorough=60000,
+@sub("C12.lpc", strategy=yw_case(dtype="real", with_list=True), quick=800, thorough=40000,
      doc="real data: lpc(x,p)[0] == aryule(x,p)[0] (lpc: FFT autocorrelation + LEVINSON)")
 def c12_lpc(ctx, case):
     x = _get(ctx, case)
@@ -216,7 +216,7 @@ def c12_lpc(ctx, case):
     ctx.check(np.isrealobj(al), "lpc returned complex coefficients for real data")
 
 
-@sub("C12.pyule", strategy=yw_case(), quick=500, thorough=30000,
+@sub("C12.pyule", strategy=yw_case(), quick=500, thorough=20000,
      doc="pyule(x,p)().ar / .reflection == aryule(x,p,'biased') (default norm of the class is the biased one)")
 def c12_pyule(ctx, case):
     x = _get(ctx, case)
